@@ -1,6 +1,8 @@
 //! C04 — load URLs resolve to the documented candidate file.
 
 use crate::core::*;
+#[allow(unused_imports)]
+use crate::core::StatsExt;
 use crate::loader::*;
 use crate::resolve::{candidates_import, candidates_use};
 use crate::simfs::{FsStore, SimFs};
@@ -593,6 +595,9 @@ impl Prop for C04 {
             }
         }
         out
+    }
+    fn evidence_extra(&self, stats: &Stats) -> Json {
+        crate::core::world_a_extra(stats)
     }
     fn rule(&self) -> String {
         format!("Runs 0..{SINGLE} enumerate exhaustively every subset of the candidate files in the importer's directory (2^6 for @use, 2^6 for @forward, 2^10 for @import) x importer at the root / in a sub-directory x url `u` / `s/u`; the next {PLAIN} runs enumerate the plain-CSS @import forms with and without a matching file; (thorough only) the next {TWO_LOC_USE} enumerate every subset pair over importer directory x first load path for @use; the remaining runs sample subsets over importer directory, root directory, up to two load paths and decoy directories from the seed. Each case is compiled by the real library through SimLoader; the file whose marker appears must be the winner under at least one admissible reading of the rule (location-major / candidate-major, pairwise / grouped import-only order, root directory counted as load path or not). Non-trivial = every run (each has at least one lookup); distinct = distinct digests of (loader event history, result).")
